@@ -5,7 +5,8 @@ import CifModel.Props.C13Doc
   `C13_refuses` says the writer fails iff some element is inexpressible and that the code names a kind that occurs; when a CIF
   holds elements of BOTH kinds the code is that of the element the walk meets first (`containersFirst`, Lemmas/WriterV1First.lean:
   a scan of the walked CIF in the writer's order — container code, save frames, loops; loop-header names before packets; a data
-  name before its value; the characters of a string before its presentation; a list or table as such).
+  name before its value; within a string a carriage return first (CIF_DISALLOWED_VALUE), then its characters, then its presentation;
+  a list or table as such).
 -/
 namespace CifModel
 open Model Model.Writer Lemmas.WriterTotal Lemmas.WriterV1
